@@ -44,14 +44,16 @@ class Timeout(Exception):
 
 
 def _alarm(signum, frame):
-    raise Timeout("wall-clock guard: the training function did not return")
+    raise Timeout("CPU-time guard: the training function did not return")
 
 
 def fingerprint(agent):
-    """content hash of every evolvable network of the agent (weights only)"""
+    """content hash of the evaluation (policy / trained) networks of the agent, weights only. Target networks are
+    left out on purpose: Mutations.mutation re-creates every shared (target) network from its evaluation network
+    for every individual, whatever mutation was drawn (C02's subject), which does not change how the agent acts."""
     import hashlib
     h = hashlib.sha1()
-    for name in sorted(agent.evolvable_attributes(networks_only=True)):
+    for name in sorted(g.eval for g in agent.registry.groups):
         net = getattr(agent, name)
         nets = [net] if hasattr(net, "state_dict") else (list(net.values()) if isinstance(net, dict) else list(net))
         for j, m in enumerate(nets):
@@ -148,6 +150,7 @@ def run_loop(case, build_dir: Path, guard_s=60):
 
     seed = case.get("seed", 0)
     random.seed(seed); np.random.seed(seed); torch.manual_seed(seed)
+    torch.set_num_threads(1)      # tiny networks; avoids spin-waiting of the intra-op pool on a loaded machine
     log = []
     ckdir = build_dir / "ckpt" / f"{os.getpid()}"
     if ckdir.exists():
@@ -268,14 +271,15 @@ def run_loop(case, build_dir: Path, guard_s=60):
         if memory is not None:
             args["memory"] = memory
         obs["stage"] = "train"
-        old = signal.signal(signal.SIGALRM, _alarm)
-        signal.alarm(int(guard_s))
+        # guard on the CPU time of this process (not wall clock: a loaded machine must not produce a false alarm)
+        old = signal.signal(signal.SIGPROF, _alarm)
+        signal.setitimer(signal.ITIMER_PROF, float(guard_s))
         try:
             with contextlib.redirect_stdout(io.StringIO()), contextlib.redirect_stderr(io.StringIO()):
                 ret_pop, ret_fit = train(**args)
         finally:
-            signal.alarm(0)
-            signal.signal(signal.SIGALRM, old)
+            signal.setitimer(signal.ITIMER_PROF, 0.0)
+            signal.signal(signal.SIGPROF, old)
         obs["completed"] = True
         obs["stage"] = "done"
         obs["final"] = [snap(a, eval_loop) for a in ret_pop]
